@@ -425,7 +425,7 @@ def compact_answer(q, a):
     if a[0] == 'err':
         if a[1] in SHORT_ERR:
             return SHORT_ERR[a[1]]
-        return '(Err OutOfFuel)' if a[1].startswith('UNMODELLED') else f'(Err {a[1]})'
+        return '(Err UnmodelledPythonException)' if a[1].startswith('UNMODELLED') else f'(Err {a[1]})'
     k, v = q[0], a[1]
     if k in ('sizes', 'get_significant_inputs_of'):
         return f'(an {nats(v)})'
@@ -446,7 +446,7 @@ def term_func(case, impl):
     for name in CLASSES:
         a = impl['answers'][name]
         if isinstance(a, tuple):
-            parts.append(f'(Err {a[1]})' if not a[1].startswith('UNMODELLED') else '(Err OutOfFuel)')
+            parts.append(f'(Err {a[1]})' if not a[1].startswith('UNMODELLED') else '(Err UnmodelledPythonException)')
         else:
             parts.append('(Ok ' + ct.lst(compact_answer(q, x) for q, x in zip(qs, a)) + ')')
     circ = ct.opt(impl['circuit'], ct.circuit)
